@@ -221,3 +221,10 @@ def run(case):
             out.label("strong_attenuation_measured")
             out.check(abs(ratio - g_s) <= 1e-6 * g_s, "gain:strong_attenuation_not_the_formula_relatively", f"px {px_s} dose {d_s} size {ww}x{hh} at ({kx_},{ky_}): got {ratio!r} expected {g_s!r}")
     return out
+
+
+# rejected calls that run before every case (vlib/faults.py): nothing they leave behind - module state, library options,
+# stray files - may make the valid calls of the case violate the statement
+from vlib import faults as _faults  # noqa: E402
+
+fault_calls = _faults.for_property(ID)
